@@ -23,7 +23,8 @@ FAULTS = {
 }
 PRELUDE = ['let strf = func (x) => "s";', "let intf = func (x) => x + 1;", "let tupf = func (x) => {a = x};",
            "let lstf = func (x) => [x, x];", 'let sv = "x12";', "let iv = 7;", "let tv = {a = 1};", "let lv = [1, 2];"]
-NESTINGS = ["top", "tuple_field", "list_elem", "call_arg", "select_arm", "func_body", "template_expr"]
+NESTINGS = ["top", "tuple_field", "list_elem", "call_arg", "select_arm", "func_body", "template_expr", "module_body", "module_out",
+            "module_result"]
 SYNTAX = [("=", ""), (";", ""), ("(", ""), (")", ""), ("{", ""), ("}", ")"), ("=", "=="), (",", ";")]
 
 
@@ -99,6 +100,17 @@ def fault_statements(kind, nesting, tag):
     if nesting == "template_expr":
         # the fault sits inside @{...} of a format string (re-tokenized by the template parser)
         return ["let bad%s = \"pre @{%s} post\" %% tv;" % (tag, F.replace('"', '\\"'))], 0, None
+    if nesting == "module_result":
+        # the faulty operand is the value a module's out expression produced: the fault is where it is USED
+        use = "int(mr%s{})" % tag if "int(" in F or "float(" in F else "(mr%s{} + 1)" % tag
+        return ["let mr%s = module {} => (v) {\n  let v = \"x12\";\n};" % tag, "let bad%s = %s;" % (tag, use)], 1, None
+    if nesting == "module_body":
+        # the fault is in the body of a module defined here and instantiated two statements later
+        return ["let m%s = module {p = 1} => {\n  let inner = %s;\n};" % (tag, F), "let keep%s = 1;" % tag, "let bad%s = m%s{};" % (tag, tag)], 0, 2
+    if nesting == "module_out":
+        # ... in the out expression of the module
+        return ["let m%s = module {p = 1} => ([mod.p, %s]) {\n  let inner = 1;\n};" % (tag, F), "let keep%s = 1;" % tag,
+                "let bad%s = m%s{};" % (tag, tag)], 0, 2
     if nesting == "func_body":
         return ["let g%s = func (x) => [x, %s];" % (tag, F), "let keep%s = 1;" % tag, "let bad%s = g%s(1);" % (tag, tag)], 0, 2
     raise ValueError(nesting)
@@ -244,8 +256,13 @@ def run(tier, seed):
     corr = []
     ncmp = ntriples = 0
     okm, mmsg = C.build_model_runner()
+    probe_bin = os.path.join(C.TARGET, "debug", "posprobe")
     if not okm:
         broken.append({"extraction": mmsg[-1500:]})
+    elif not os.path.exists(probe_bin):
+        note = os.path.join(C.CACHE, "posprobe.err")
+        broken.append({"correspondence": "pos/PTranslate.v vs translate.rs: the positioned-AST probe no longer builds against /repo",
+                       "log": open(note).read()[-1200:] if os.path.exists(note) else ""})
     else:
         import shutil
         import subprocess
@@ -315,7 +332,7 @@ def run(tier, seed):
     cov["distinct_nontrivial"] = len(set(c["text"] for c in cases))
     cov["rule"] = ("valid multi-line programs of 3..12 statements with exactly one fault (unknown name, run-time type mismatch, missing field, "
                    "missing index, unhandled select case, failed cast, fail expression) at every statement position (quick: one of first/middle/last per form), every kind in several forms (literal operand, operand bound earlier, operand returned by a function defined earlier) "
-                   "and nesting position (top, tuple field, list element, call argument, select arm, function body called later, inside @{...} of a format string), each also "
+                   "and nesting position (top, tuple field, list element, call argument, select arm, function body called later, inside @{...} of a format string, module body / module out expression instantiated later, use of a module's result), each also "
                    "with 1..3 statements inserted before; syntax faults by replacing one token; the span table comes from the generator")
     cov["generator_distribution"] = stats
     cov["samples"] = [cases[0]["text"], cases[-1]["text"]]
